@@ -601,6 +601,8 @@ class Repo:
         f = call.func
         if isinstance(f, ast.Name):
             t = self.resolve_symbol(fi.module, f.id)
+            if isinstance(t, ClassInfo):
+                return t.methods.get("__init__")
             return t if isinstance(t, FuncInfo) else None
         if isinstance(f, ast.Attribute) and isinstance(f.value, ast.Name) and f.value.id == "self" and fi.cls is not None:
             return fi.cls.methods.get(f.attr)
